@@ -1,6 +1,7 @@
-"""C12: probe runner.  Like common.harness() but with wall-clock caps: a batch that does not finish within
-its cap is killed and its unanswered requests are re-run one at a time, so a hang is attributed to one
-input ({"hang": seconds}) exactly as an abort is ({"abort": rc, "stderr": ..})."""
+"""C12: probe runner.  Like common.harness() but every request carries a wall-clock cap (`cap_ms`, enforced
+inside the harness: on a timeout the harness answers {"hang": cap_ms} and exits) and every batch has an outer
+cap as a backstop.  A batch that ends early (hang, stack overflow / SIGABRT / SIGSEGV) is continued in a new
+process from the request after the culprit; the culprit's answer is {"hang": ms} or {"abort": rc, "stderr": ..}."""
 import concurrent.futures as cf
 import json
 import subprocess
@@ -10,65 +11,59 @@ from ..common import HARNESS_BIN, NPROC, harness_build
 
 
 def _run(cmd, lines, cap):
-    t0 = time.time()
     try:
         p = subprocess.run([HARNESS_BIN, cmd], input="\n".join(lines) + "\n", capture_output=True, text=True, timeout=cap)
         outs = [l for l in p.stdout.split("\n") if l.strip()]
-        return p.returncode, outs, p.stderr[-400:], False, time.time() - t0
+        return p.returncode, outs, p.stderr[-400:], False
     except subprocess.TimeoutExpired as ex:
         out = ex.stdout.decode("utf-8", "replace") if isinstance(ex.stdout, bytes) else (ex.stdout or "")
-        outs = [l for l in out.split("\n") if l.strip()]
-        # the last line may be cut
         good = []
-        for l in outs:
+        for l in out.split("\n"):
+            if not l.strip():
+                continue
             try:
                 json.loads(l)
                 good.append(l)
             except ValueError:
                 break
-        return 124, good, "TIMEOUT", True, time.time() - t0
+        return 124, good, "TIMEOUT", True
 
 
-def probe(reqs, cap_each=20.0, cap_base=30.0, shards=None, cmd="probe"):
-    """reqs: list of dict.  Returns list of answers; each answer is the harness's JSON, or
-    {"abort": rc, "stderr": s} or {"hang": cap_each}."""
+def probe(reqs, cap_ms=10000, shards=None, cmd="c12probe"):
+    """reqs: list of dict (entry, src, stack_mb, target).  Returns the list of answers."""
     harness_build()
     if not reqs:
         return []
     shards = shards or NPROC
-    lines = [json.dumps(r) for r in reqs]
+    lines = [json.dumps(dict(r, cap_ms=cap_ms)) for r in reqs]
     n = len(lines)
-    size = max(1, (n + shards - 1) // shards)
-    chunks = [(i, lines[i:i + size]) for i in range(0, n, size)]
+    # interleave so that neighbouring (similar, possibly slow) requests land in different processes
+    idx = [list(range(s, n, shards)) for s in range(shards)]
+    idx = [ix for ix in idx if ix]
     res = [None] * n
 
-    def work(args):
-        i, c = args
-        cap = cap_base + 0.05 * len(c)
-        rc, outs, err, timed_out, dt = _run(cmd, c, cap)
+    def work(ix):
+        c = [lines[i] for i in ix]
         done = []
-        for o in outs[:len(c)]:
-            done.append(json.loads(o))
-        k = len(done)
-        while k < len(c):
-            # the culprit, then the rest again as a batch
-            rc1, o1, e1, to1, dt1 = _run(cmd, [c[k]], cap_each)
-            if len(o1) == 1 and not to1:
-                done.append(json.loads(o1[0]))
-            elif to1:
-                done.append({"hang": cap_each})
+        while len(done) < len(c):
+            rest = c[len(done):]
+            outer = 30.0 + (cap_ms / 1000.0) * 2 + 0.05 * len(rest)
+            rc, outs, err, timed_out = _run(cmd, rest, outer)
+            got = [json.loads(o) for o in outs[:len(rest)]]
+            done += got
+            if len(got) == len(rest):
+                break
+            if got and isinstance(got[-1], dict) and "hang" in got[-1] and rc == 3:
+                continue            # the harness reported the hang itself and exited
+            # no answer for the next request: abort (rc < 0 / != 0) or outer timeout
+            if timed_out:
+                done.append({"hang": int(outer * 1000), "outer": True})
             else:
-                done.append({"abort": rc1, "stderr": e1})
-            k += 1
-            if k < len(c):
-                rc2, o2, e2, to2, dt2 = _run(cmd, c[k:], cap)
-                for o in o2[:len(c) - k]:
-                    done.append(json.loads(o))
-                k = len(done)
-        return i, done
+                done.append({"abort": rc, "stderr": err})
+        return ix, done
 
     with cf.ThreadPoolExecutor(max_workers=shards) as ex:
-        for i, done in ex.map(work, chunks):
-            for k, v in enumerate(done):
-                res[i + k] = v
+        for ix, done in ex.map(work, idx):
+            for i, v in zip(ix, done):
+                res[i] = v
     return res
